@@ -70,7 +70,8 @@ def rk23Accepted {σ : Type} (P : R23Params α n) (f : Rhs α n) (ob : Obs σ α
     (T : R23Trial α n) : Sum (R23State σ α n) (Result σ α n) :=
   let m := T.m.incTotal.incAccepted
   let xold := s.x
-  let x := s.x + h
+  -- `x = if last { xend } else { x + h }`
+  let x := landX last P.xend s.x h
   let ip : Option (α → Vec α n) :=
     if P.dense then
       let d := Gen.Rk23.dense (ye := s.y) (k1 := s.k1) (k2 := T.o.k2) (k3 := T.o.k3) (k4 := T.o.k4)
@@ -152,7 +153,7 @@ def rk4Iter {σ : Type} (P : R4Params α) (f : Rhs α n) (ob : Obs σ α n) (s :
     let o := Gen.Rk4.stages (f := fun j => f (s.m.ncalls + j)) (y := s.y) (h := h) (k1 := s.k1) (x := s.x)
     let m := s.m.bump o.calls 3
     let xold := s.x
-    let u := Gen.Rk4.update (f := fun j => f (m.ncalls + j)) (h := h) (x := s.x) (k1 := s.k1) (k2 := o.k2) (k3 := o.k3)
+    let u := Gen.Rk4.update (f := fun j => f (m.ncalls + j)) (last := a.2) (xend := P.xend) (h := h) (x := s.x) (k1 := s.k1) (k2 := o.k2) (k3 := o.k3)
       (k4 := o.k4) (y := s.y)
     -- `evals.ode += 4` covers the three stages and the evaluation at the new point
     let m := (m.bump u.calls 1).incTotal.incAccepted
